@@ -643,7 +643,7 @@ impl Property for C17 {
     }
     fn rule(&self) -> String {
         "pp: boundary fix_words (powers of two ±3, integer parts 0/15/16/2047/2048, decimal fractions k/10^j ±1) then random ones, 32 per case, each through Display + pl::File::display + from_pl_source_code and through the Lean model; \
-         swf/sws: Rust-only exhaustive sweeps of the round trip (all 2^20 fractions of chosen integer parts; strided over all 2^32 patterns); \
+         swf/sws: Rust-only exhaustive sweeps of the round trip (quick: all 2^20 fractions of integer parts 0 and -2047, stride 65521 over all 2^32 patterns; thorough: ALL 2^32 patterns in 64 cases of 2^26 unless VERIF_C17_FULL=0, then all 2^20 fractions x 64 integer parts + stride 257; see extra.swept_fix_words_rust_only); \
          ps: structured random decimal texts (prefix, signs, integer part around 2047/2048, 0..9 fraction digits, junk) through the real reader; \
          sc: (value, design size) grid over boundary values (bytes of v, z at every halving threshold) and random pairs; \
          cp: all lists of length ≤ 4 over 6 values × class limits 1..3, then random multisets of ≤ 300 values (clustered, progressions, legal range, powers of two, a few overflowing) × class limits 1..255; \
@@ -754,7 +754,14 @@ impl Property for C17 {
             }
         }
         // sweeps
-        if t {
+        if t && std::env::var("VERIF_C17_FULL").map(|v| v != "0").unwrap_or(true) {
+            // all 2^32 bit patterns, 64 cases of 2^26 (measured: 104 CPU-minutes in total, 6.5 min
+            // wall on 16 idle cores, 15 min on a machine with load 30). VERIF_C17_FULL=0 cuts this
+            // to all 2^20 fractions x 64 integer parts + every 257th pattern.
+            for k in 0..64i64 {
+                v.push(format!("sws {} 1 {}", MIN + (k << 26), 1u64 << 26));
+            }
+        } else if t {
             for ip in [0i64, 1, 2, 7, 9, 10, 15, 16, 99, 100, 255, 256, 999, 1000, 1023, 1024, 2000, 2046, 2047] {
                 v.push(format!("swf {ip} 0"));
                 v.push(format!("swf {ip} 1"));
